@@ -37,7 +37,7 @@ ToSet(q) == { q[i] : i \in DOMAIN q }
 F(ok, prop, what, detail) == IF ok THEN {} ELSE { [p |-> prop, w |-> what, d |-> detail] }
 Report(fs) == IF fs = {} THEN TRUE ELSE PrintT(<<"FAIL", l, ToJson(fs)>>)
 NoPos == [board |-> EmptyBoard, stm |-> White, cast |-> {}, ep |-> 8]
-NoGo == [t |-> 0, params |-> [none |-> 0], infotime |-> -1, stopped |-> FALSE, fresh |-> FALSE, quit |-> FALSE]
+NoGo == [t |-> 0, params |-> [none |-> 0], infotime |-> -1, stopped |-> FALSE, stopt |-> 0, fresh |-> FALSE, quit |-> FALSE]
 NoAcc == [depths |-> << >>, scores |-> << >>, pvs |-> << >>]
 Tolerance == 2500   \* ms, driver clock: wide enough for a loaded machine
 
@@ -114,12 +114,12 @@ Cmd ==
                           ELSE {}))
                /\ IF accepted
                   THEN /\ pending' = pending + 1 /\ sroot' = root /\ root' = NoPos
-                       /\ go' = [t |-> e.t, params |-> e.params, infotime |-> it, stopped |-> FALSE, fresh |-> waiting.fresh, quit |-> FALSE]
+                       /\ go' = [t |-> e.t, params |-> e.params, infotime |-> it, stopped |-> FALSE, stopt |-> 0, fresh |-> waiting.fresh, quit |-> FALSE]
                        /\ waiting' = [waiting EXCEPT !.acc = NoAcc, !.fresh = FALSE]
                        /\ rootrec' = << >>
                   ELSE UNCHANGED <<rootrec, pending, sroot, root, go, waiting>>
        [] e.kind = "stop" ->
-            /\ Report(common) /\ go' = [go EXCEPT !.stopped = TRUE] /\ UNCHANGED <<rootrec, pending, root, sroot, waiting>>
+            /\ Report(common) /\ go' = [go EXCEPT !.stopped = TRUE, !.stopt = IF go.stopped THEN go.stopt ELSE e.t] /\ UNCHANGED <<rootrec, pending, root, sroot, waiting>>
        [] e.kind = "ucinewgame" ->
             /\ Report(common) /\ root' = NoPos /\ waiting' = [waiting EXCEPT !.fresh = TRUE] /\ UNCHANGED <<rootrec, pending, sroot, go>>
        [] e.kind \in {"show", "d"} ->
@@ -201,6 +201,10 @@ Waited ==
                \/ (Has(go.params, "depth") /\ go.params.depth <= 3)
             THEN F(Rec[l].ok, "C14", "no bestmove arrived for a go bounded by a short time or depth (watchdog expired)",
                    [go |-> go.params, waited_ms |-> Rec[l].t - go.t])
+            \* after stop the search has to unwind at once, whatever its limits: five seconds without an answer is a verdict
+            ELSE IF pending >= 1 /\ go.stopped /\ Rec[l].t - go.stopt >= 5000
+            THEN F(Rec[l].ok, "C14", "no bestmove arrived after stop (watchdog expired)", [go |-> go.params, waited_ms_after_stop |-> Rec[l].t - go.stopt])
+                 \cup F(Rec[l].ok, "C07", "the search did not answer after stop (watchdog expired)", [go |-> go.params, waited_ms_after_stop |-> Rec[l].t - go.stopt])
             ELSE {})
   /\ UNCHANGED <<rootrec, pending, root, sroot, go, waiting>> /\ l' = l + 1
 
